@@ -258,11 +258,11 @@ local macro "c04b_tail " x:term : tactic => `(tactic| (
       cases h
       exact ⟨_, _, rfl, by repeat' constructor⟩))
 
-theorem load_layout_independent (inv : Arr → Arr) (d : Dir) (t : Arr)
+theorem load_layout_independent (inv : Arr → Arr) {one : Cell} (d : Dir) (t : Arr)
     (hks : ∀ n ∈ d.map (·.1), n ∈ ksNames)
     (ht : monotone (scrub t).data = true)
-    (v : View) (d' : Dir) (h : load inv d = .ok (v, d')) :
-    ∃ v' d'', load inv (toALF d t) = .ok (v', d'') ∧
+    (v : View) (d' : Dir) (h : load inv d one = .ok (v, d')) :
+    ∃ v' d'', load inv (toALF d t) one = .ok (v', d'') ∧
       v'.times = .stored (squeeze (scrub t)) ∧ v'.samples = v.samples ∧
       v'.amplitudes = v.amplitudes ∧ v'.spikeTemplates = v.spikeTemplates ∧
       v'.spikeClusters = v.spikeClusters ∧ v'.channelMap = v.channelMap ∧
